@@ -175,6 +175,7 @@ pub fn check(hdr: &str, lines: &[String], trace: &[(String, Vec<String>)], mon: 
 
     let mut dead = false;
     let mut now: u64 = 0;
+    let mut sol_con_tx_time: Option<u64> = None;
     // ---- C04 state
     struct Delivered {
         frag: Vec<u8>,
@@ -881,6 +882,23 @@ pub fn check(hdr: &str, lines: &[String], trace: &[(String, Vec<String>)], mon: 
                     last_processed = Some((k, f.clone()));
                     if func == Some(1) {
                         last_read_frag = Some(f.clone());
+                    }
+                }
+            }
+        }
+        // every fragment that asks for a confirm has its own deadline: the wait is not reported as timed out
+        // before the confirm timeout has passed since the fragment now awaited was (re)transmitted
+        if let Some(x) = t.iter().rev().find(|x| x.bytes.len() >= 2 && x.bytes[1] == 0x81 && x.bytes[0] & 0x20 != 0) {
+            let _ = x;
+            sol_con_tx_time = Some(now);
+        }
+        for o in outs {
+            if o.starts_with("cb sol_timeout") {
+                if let Some(t0) = sol_con_tx_time {
+                    // (a transmission and the time-out in one operation: the transmission follows the time-out)
+                    let sent_now = t.iter().any(|x| x.bytes.len() >= 2 && x.bytes[1] == 0x81 && x.bytes[0] & 0x20 != 0);
+                    if !sent_now && now < t0 + cfg.ctimeout {
+                        fail(mon, hdr, "confirm_timeout_not_early", "", &format!("op {k}: solicited confirm wait timed out {} ms after the awaited fragment was sent (confirm timeout {})", now - t0, cfg.ctimeout));
                     }
                 }
             }
